@@ -80,9 +80,15 @@ func init() {
 		// the rotation also sees their effects
 		switch point {
 		case "rotate.done":
-			rotOf(arg.(*wal.WAL)).finished.Add(1)
+			if r, ok := rots.Load(arg.(*wal.WAL)); ok {
+				r.(*rot).finished.Add(1)
+			}
 		case "rotate.exit":
-			rotOf(arg.(*wal.WAL)).exited.Add(1)
+			// may arrive after Forget (the rotation goroutine outlives Close): must not
+			// re-create the entry, which would keep the whole WAL reachable for ever
+			if r, ok := rots.Load(arg.(*wal.WAL)); ok {
+				r.(*rot).exited.Add(1)
+			}
 		}
 	})
 	segment.VerifHook.Store(func(point string, arg any) { segSlot.dispatch(point, arg) })
@@ -100,7 +106,11 @@ func OnMeta(l Listener) func()    { return metaSlot.add(l) }
 // happen within the (generous, wall-clock) watchdog; callers must treat that as
 // inconclusive, not as a verdict.
 func WaitRotation(w *wal.WAL, watchdog time.Duration) bool {
-	r := rotOf(w)
+	rr, ok := rots.Load(w)
+	if !ok {
+		return true // nothing was ever triggered on w (or it was forgotten)
+	}
+	r := rr.(*rot)
 	deadline := time.Time{}
 	for i := 0; ; i++ {
 		if r.finished.Load() >= r.triggered.Load() || r.exited.Load() > 0 {
@@ -122,7 +132,11 @@ func WaitRotation(w *wal.WAL, watchdog time.Duration) bool {
 
 // Rotations returns (triggered, finished, exited) for w.
 func Rotations(w *wal.WAL) (int64, int64, int64) {
-	r := rotOf(w)
+	rr, ok := rots.Load(w)
+	if !ok {
+		return 0, 0, 0
+	}
+	r := rr.(*rot)
 	return r.triggered.Load(), r.finished.Load(), r.exited.Load()
 }
 
